@@ -38,19 +38,32 @@ def _pragma_nodes(c, out):
             _pragma_nodes(e, out)
 
 
-def check_body(t, mode, parser):
+def _single_funcdef(ast, t, td):
+    """The FuncDef of the program, or None if the translation unit is not
+    [typedefs of the label names...] + one function."""
+    k = len(M.label_names(t)) if td else 0
+    if len(ast.ext) != k + 1 or ast.ext[-1].__class__.__name__ != "FuncDef":
+        return None
+    if any(e.__class__.__name__ != "Typedef" for e in ast.ext[:k]):
+        return None
+    return ast.ext[-1]
+
+
+def check_body(t, mode, parser, td=False):
     """t: labelled block item used as the only item of f's body.
+    td: every label name is also declared as a typedef name at file scope.
     Returns None or (kind, detail, got, exp)."""
-    text = M.body_text(t, mode)
+    text = (M.typedef_prefix(t) if td else "") + M.body_text(t, mode)
     out = core.parse_outcome(text, parser=parser)
     if out[0] == "perr":
         return ("reject", out[1], None, None)
     if out[0] != "ok":
         return ("exc:" + str(out[1] if len(out) > 1 else out[0]), out[-1], None, None)
     ast = out[1]
-    if len(ast.ext) != 1 or ast.ext[0].__class__.__name__ != "FuncDef":
+    fd = _single_funcdef(ast, t, td)
+    if fd is None:
         return ("mismatch", "not a single FuncDef", None, None)
-    got = core.canon(ast.ext[0].body)
+    got = core.canon(fd.body)
     exp = M.body_expect(t, mode)
     if got != exp:
         return ("mismatch", "/".join(core.first_diff(got, exp) or ()), got, exp)
@@ -115,7 +128,7 @@ def _raw_candidates(t):
     return out
 
 
-def minimise(shape, mode, kind, parser, budget=400):
+def minimise(shape, mode, kind, parser, budget=400, td=False):
     """Greedy reduction to a locally minimal shape failing with the same kind."""
     cur = shape
     while budget > 0:
@@ -123,7 +136,7 @@ def minimise(shape, mode, kind, parser, budget=400):
         for c in sorted(_candidates(cur), key=_size):
             budget -= 1
             try:
-                r = check_body(M.label(c), mode, parser)
+                r = check_body(M.label(c), mode, parser, td)
             except Exception:
                 continue
             if r is not None and r[0] == kind:
@@ -174,6 +187,35 @@ def _pragma_text_sig(r):
     return None
 
 
+def _label_position(t, parent="block"):
+    """'substatement' if some ordinary label of t is not a direct block item,
+    else 'block-item' (None without labels)."""
+    res = None
+    if t[0] == "label":
+        if parent != "block":
+            return "substatement"
+        res = "block-item"
+    for ch in M._children(t):
+        r = _label_position(ch, "block" if t[0] == "compound" else "sub")
+        if r == "substatement":
+            return r
+        res = res or r
+    return res
+
+
+def _td_sig(kind, m, mode, parser):
+    """Signature of a failure of the typedef-named-label rendering: if the same
+    term is fine with plain label names, the spelling is the cause and the
+    statement around the label does not matter."""
+    try:
+        plain_ok = check_body(M.label(m), mode, parser, False) is None
+    except Exception:
+        plain_ok = False
+    if plain_ok:
+        return "typedef-named-label:%s:label-as-%s" % (kind, _label_position(m) or "none")
+    return "typedef-named-label:%s:%s" % (kind, sketch(m))
+
+
 class _Acc:
     def __init__(self):
         self.fails = []
@@ -207,25 +249,31 @@ def run_shape(shape, acc, parser, src):
     acc.add("transitions", n)
     for k in ks:
         acc.kinds[k] = acc.kinds.get(k, 0) + 1
-    modes = ("minimal", "ambiguous") if M.has_dangling(shape) else ("minimal",)
-    for mode in modes:
+    modes = [("minimal", False)] + ([("ambiguous", False)] if M.has_dangling(shape) else [])
+    if "label" in ks:
+        # the same tree with every label spelled like a typedef name in scope
+        modes.append(("minimal", True))
+    for mode, td in modes:
         acc.add("replays")
         if mode == "ambiguous":
             acc.add("ambiguous_renderings")
-        r = check_body(t, mode, parser)
+        if td:
+            acc.add("typedef_named_label_renderings")
+        r = check_body(t, mode, parser, td)
         if r is None:
-            if mode == "minimal" and shape[0] not in _LEAF:
+            if mode == "minimal" and not td and shape[0] not in _LEAF:
                 acc.add("nontrivial")
             continue
         acc.add("failures")
         if acc.minimised < MAX_MINIMISED_PER_TASK:
             acc.minimised += 1
-            m = minimise(shape, mode, r[0], parser)
-            sig = "%s:%s" % (r[0], sketch(m))
+            m = minimise(shape, mode, r[0], parser, td=td)
+            sig = _td_sig(r[0], m, mode, parser) if td else "%s:%s" % (r[0], sketch(m))
             tm = M.label(m)
-            acc.fails.append((sig, {"shape": _js(m), "wrap": True, "mode": mode, "text": M.body_text(tm, mode), "from": src,
-                                    "original_text": M.body_text(t, mode)},
-                              (check_body(tm, mode, parser) or r)[1]))
+            pre = M.typedef_prefix(tm) if td else ""
+            acc.fails.append((sig, {"shape": _js(m), "wrap": True, "mode": mode, "td": td, "text": pre + M.body_text(tm, mode), "from": src,
+                                    "original_text": (M.typedef_prefix(t) if td else "") + M.body_text(t, mode)},
+                              (check_body(tm, mode, parser, td) or r)[1]))
         else:
             acc.add("failures_not_minimised")
     h = hash(shape)
@@ -280,49 +328,58 @@ def run_top(top, acc, parser, src):
     acc.add("transitions", n)
     for k in ks:
         acc.kinds[k] = acc.kinds.get(k, 0) + 1
-    modes = ("minimal", "ambiguous") if M.has_dangling(top) else ("minimal",)
-    for mode in modes:
+    modes = [("minimal", False)] + ([("ambiguous", False)] if M.has_dangling(top) else [])
+    if "label" in ks:
+        modes.append(("minimal", True))
+    for mode, td in modes:
         acc.add("replays")
-        r = _check_top(t, mode, parser)
+        if td:
+            acc.add("typedef_named_label_renderings")
+        r = _check_top(t, mode, parser, td)
         if r is None:
-            acc.add("nontrivial")
-            acc.add("pragma_cases")
+            if not td:
+                acc.add("nontrivial")
+                acc.add("pragma_cases")
             continue
         acc.add("failures")
         psig = _pragma_text_sig(r)
         if psig is not None:
-            acc.fails.append((psig, {"shape": _js(top), "wrap": False, "mode": mode, "text": M.FUNC_HEAD + M.render(t, mode),
+            acc.fails.append((psig, {"shape": _js(top), "wrap": False, "mode": mode, "td": td,
+                                     "text": (M.typedef_prefix(t) if td else "") + M.FUNC_HEAD + M.render(t, mode),
                                      "from": src}, r[1]))
         elif acc.minimised < MAX_MINIMISED_PER_TASK:
             acc.minimised += 1
             # minimise as an ordinary block item (one more pair of braces)
-            r2 = check_body(t, mode, parser)
+            r2 = check_body(t, mode, parser, td)
+            tdp = "typedef-named-label:" if td else ""
             if r2 is not None and r2[0] == r[0]:
-                m = minimise(top, mode, r[0], parser)
-                sig = "%s:%s" % (r[0], sketch(m))
-                text = M.body_text(M.label(m), mode)
+                m = minimise(top, mode, r[0], parser, td=td)
+                sig = _td_sig(r[0], m, mode, parser) if td else "%s:%s" % (r[0], sketch(m))
+                text = (M.typedef_prefix(M.label(m)) if td else "") + M.body_text(M.label(m), mode)
                 case = {"shape": _js(m), "wrap": True}
             else:
-                sig = "%s:body%s" % (r[0], sketch(top))
-                text = M.FUNC_HEAD + M.render(t, mode)
+                sig = "%s%s:body%s" % (tdp, r[0], sketch(top))
+                text = (M.typedef_prefix(t) if td else "") + M.FUNC_HEAD + M.render(t, mode)
                 case = {"shape": _js(top), "wrap": False}
-            case.update({"mode": mode, "text": text, "from": src, "original_text": M.FUNC_HEAD + M.render(t, mode)})
+            case.update({"mode": mode, "td": td, "text": text, "from": src,
+                         "original_text": (M.typedef_prefix(t) if td else "") + M.FUNC_HEAD + M.render(t, mode)})
             acc.fails.append((sig, case, r[1]))
         else:
             acc.add("failures_not_minimised")
 
 
-def _check_top(t, mode, parser):
-    text = M.FUNC_HEAD + M.render(t, mode)
+def _check_top(t, mode, parser, td=False):
+    text = (M.typedef_prefix(t) if td else "") + M.FUNC_HEAD + M.render(t, mode)
     out = core.parse_outcome(text, parser=parser)
     if out[0] == "perr":
         return ("reject", out[1])
     if out[0] != "ok":
         return ("exc:" + str(out[1] if len(out) > 1 else out[0]), out[-1])
     ast = out[1]
-    if len(ast.ext) != 1 or ast.ext[0].__class__.__name__ != "FuncDef":
+    fd = _single_funcdef(ast, t, td)
+    if fd is None:
         return ("mismatch", "not a single FuncDef")
-    got = core.canon(ast.ext[0].body)
+    got = core.canon(fd.body)
     exp = M.expect_stmt(t, mode)
     if got != exp:
         return ("mismatch", "/".join(core.first_diff(got, exp) or ()))
@@ -606,6 +663,7 @@ def run(tier):
     R.set("evaluations", tot.get("replays", 0))
     R.set("distinct_nontrivial", tot.get("nontrivial", 0))
     R.set("ambiguous_renderings", tot.get("ambiguous_renderings", 0))
+    R.set("typedef_named_label_renderings", tot.get("typedef_named_label_renderings", 0))
     R.set("cases_with_pragmas", tot.get("pragma_cases", 0))
     R.set("outer_cases", tot.get("outer_cases", 0))
     R.set("styled_pragma_cases", {"cases": tot.get("styled_pragma_cases", 0), "forms": list(M.EXTRA_FORMS)})
@@ -649,6 +707,8 @@ def run(tier):
         R.fail("vacuous:few-accepted", {"nontrivial": tot.get("nontrivial", 0)}, "most cases did not reach the comparison")
     if tot.get("styled_pragma_cases", 0) < 10000:
         R.fail("vacuous:styled-pragmas", {"cases": tot.get("styled_pragma_cases", 0)}, "styled pragma texts not explored")
+    if tot.get("typedef_named_label_renderings", 0) < 50000:
+        R.fail("vacuous:typedef-named-labels", {"n": tot.get("typedef_named_label_renderings", 0)}, "typedef-named label renderings not explored")
     if tot.get("ambiguous_renderings", 0) < 1000 or tot.get("pragma_cases", 0) < 100000:
         R.fail("vacuous:modes", {"ambiguous": tot.get("ambiguous_renderings", 0), "pragma": tot.get("pragma_cases", 0)}, "dangling-else / pragma parts empty")
     return R.finish(
@@ -672,11 +732,11 @@ def replay(rep):
     else:
         t = M.label(_unjs(c["shape"]))
         if c.get("wrap", True):
-            r = check_body(t, c["mode"], parser)
+            r = check_body(t, c["mode"], parser, c.get("td", False))
             if r is not None:
                 print("expected body:", r[3])
                 print("observed body:", r[2])
         else:
-            r = _check_top(t, c["mode"], parser)
+            r = _check_top(t, c["mode"], parser, c.get("td", False))
     print("oracle:", "fine" if r is None else r[:2])
     return 0 if r is None else 1
